@@ -158,9 +158,12 @@ impl Check for C09 {
                         CEv::Receive(d) => parse_world_payload(d).filter(|p| p.0 == STREAM_S2C + k as u8).map(|p| p.1),
                         _ => None,
                     }).collect();
+                    // only packets submitted on the server-side connection disconnect() was called on (an earlier
+                    // connection of the same address that ended with an Error took its queue with it)
+                    let inst_start = w.server_events.iter().filter(|(s, _, e)| *s < s0 && matches!(e, SEv::Connect(a) if *a == addr)).map(|p| p.0).last().unwrap_or(0);
                     for (s, _, a) in log.api.iter() {
                         if let Api::ServerSend { c: kk, idx, mode: 3, accepted: true, .. } = a {
-                            if *kk == k && *s < s0 && !got.contains(idx) {
+                            if *kk == k && *s < s0 && *s > inst_start && !got.contains(idx) {
                                 return CaseResult::fail(
                                     "oracle:c09:reliable_not_flushed:server_to_client",
                                     format!("the server submitted Reliable packet #{idx} to client {k} before calling disconnect(); the client reported Disconnect without having received it (received: {} packets)", got.len()),
@@ -168,7 +171,7 @@ impl Check for C09 {
                             }
                         }
                     }
-                    let sent_empty = log.api.iter().filter(|(s, _, a)| *s < s0 && matches!(a, Api::ServerSendEmpty { c: kk, accepted: true } if *kk == k)).count();
+                    let sent_empty = log.api.iter().filter(|(s, _, a)| *s < s0 && *s > inst_start && matches!(a, Api::ServerSendEmpty { c: kk, accepted: true } if *kk == k)).count();
                     let got_empty = slot.events.iter().filter(|(s, _, e)| *s < tseq && matches!(e, CEv::Receive(d) if d.is_empty())).count();
                     if got_empty < sent_empty {
                         return CaseResult::fail(
